@@ -12,8 +12,8 @@ import loader, models, interp
 from interp import Machine, SliceRef, RStr, Ptr, Struct, Enum, Opaque, BoxObj, VecObj, Tuple, Unsupported, RustPanic, PathAbort, UNIT
 from models import model, Some, NONE, Ok, Err, deref
 
-PAT_ALPHA = [ord(c) for c in "ab*?[]!\\."]   # no "^": a bracket expression starting with ^ is unspecified in POSIX
-SUBJ_ALPHA = [ord(c) for c in "ab]!^.\\[*"]
+PAT_ALPHA = [ord(c) for c in "ab*?[]!\\.-"]   # no "^": a bracket expression starting with ^ is unspecified in POSIX; "-" for ranges
+SUBJ_ALPHA = [ord(c) for c in "ab]!^.\\[*-"]
 
 
 class CStr:
@@ -168,7 +168,15 @@ def parse_bre_subset(r):
                 members.append(r[j]); j += 1
             if j >= len(r): raise BadRe("unterminated bracket expression")
             if not members: raise BadRe("empty bracket expression")
-            atom = ("set", neg, members); i = j + 1
+            # ranges: x-y with y not the closing bracket
+            ms, k = [], 0
+            while k < len(members):
+                if k + 2 < len(members) and members[k + 1] == "-":
+                    if members[k] > members[k + 2]: raise BadRe("empty range in bracket expression")
+                    ms.append((members[k], members[k + 2])); k += 3
+                else:
+                    ms.append(members[k]); k += 1
+            atom = ("set", neg, ms); i = j + 1
         elif c == "*" and not atoms:
             atom = ("lit", "*"); i += 1
         else:
@@ -183,7 +191,8 @@ def parse_bre_subset(r):
 def atom_matches(atom, ch):
     if atom[0] == "lit": return atom[1] == ch
     if atom[0] == "any": return True
-    return (ch in atom[2]) != atom[1]
+    hit = any((mb[0] <= ch <= mb[1]) if isinstance(mb, tuple) else mb == ch for mb in atom[2])
+    return hit != atom[1]
 
 
 def bre_full_match(atoms, s):
@@ -218,7 +227,7 @@ def native_parse_bre(m, args):
         return Err(Opaque("onig::Error"))
 
 
-from fnmatch_ref import fnmatch_ref
+from fnmatch_ref import fnmatch_ref, has_reversed_range
 
 
 def subjects(maxlen):
@@ -259,7 +268,7 @@ def explore(n, funcs, index, enums, subj_len=3):
             s.add(z3.Or([v != x for v, x in zip(pat, vals)]))
             res["inputs_covered"] += 1
             p = "".join(chr(v) for v in vals)
-            if any(x in p for x in ("[.", "[=", "[:")):
+            if any(x in p for x in ("[.", "[=", "[:")) or has_reversed_range(p):
                 res["skipped_ambiguous"] = res.get("skipped_ambiguous", 0) + 1
                 continue          # (incomplete) collating symbols / classes: outside the reference
             if r.variant == "None":
